@@ -12,12 +12,13 @@ import (
 	"math/big"
 	"strconv"
 	"strings"
+	"time"
 
 	"github.com/blinklabs-io/gouroboros/vrf"
 )
 
 func init() {
-	register(&Prop{ID: "C38", Gen: genC38, Run: runC38})
+	register(&Prop{ID: "C38", Gen: genC38, Run: runC38, Timeout: 3 * time.Minute})
 }
 
 var c38SmallOrder = []string{
